@@ -856,10 +856,6 @@ impl<'r> Lowerer<'r> {
 
         let unit_tmp = self.tmp(TyRef::UNIT);
         for expr in list {
-            let list_var = Value::Clone(Place::new(tmp.clone(), ty));
-            let list_var = self.assign_to_var(list_var, ty);
-            self.remove_live_variable(&list_var);
-
             let elem = self.expr(expr);
             let elem_ty = self.type_info.type_of(expr);
             let elem_ty = self.type_info.convert(&elem_ty);
@@ -871,6 +867,14 @@ impl<'r> Lowerer<'r> {
                 elem_ty,
                 elem,
             );
+
+            // The handle of the list that we pass to `push` is dropped by
+            // `push`, so we only create it after the element has been
+            // evaluated. Otherwise, it is leaked if the element expression
+            // leaves the function early (with `return` or `?`).
+            let list_var = Value::Clone(Place::new(tmp.clone(), ty));
+            let list_var = self.assign_to_var(list_var, ty);
+            self.remove_live_variable(&list_var);
 
             let func_ref =
                 self.find_method(TypeId::of::<ErasedList>(), "push");
